@@ -28,7 +28,7 @@ def run_and_judge(ctx, jobs, own_prefixes, nontrivial_fn, known_key_fn=None):
     if herr:
         ctx.machinery("simulation harness failed:\n" + herr[0]["harness_error"][-1500:])
     budget = [r for r in distinct if r["outcome"] == "budget"]
-    distinct = [r for r in distinct if r["outcome"] != "budget"]
+    distinct = [r for r in distinct if r["outcome"] not in ("budget", "nocut")]
     verdicts = batch.judge("GwCases", [{"events": r["events"]} for r in distinct], ctx.scratch)
     hist, nontrivial, others = {}, 0, 0
     for r, vd in zip(distinct, verdicts):
